@@ -203,9 +203,9 @@ m('t', 'T', 'update', trait='Distribution1D', valid='rv(params@[0]) > 0real', re
 m('t', 'T', 'pdf', trait='Continuous', ret='r',
   ensures=['C02.t.pdf.formula:: rv(self.dof) > 0real ==> rv(r) == r_gamma((rv(self.dof) + 1real) / 2real) / (r_sqrt(rv(self.dof) * r_pi()) * r_gamma(rv(self.dof) / 2real)) * r_pow(1real + sq(rv(x)) / rv(self.dof), -((rv(self.dof) + 1real) / 2real))'],
   pre_body='proof { if rv(self.dof) > 0real { lemma_mul_pos(rv(self.dof), r_pi()); ax_gamma_pos(rv(self.dof) / 2real); lemma_mul_pos(r_sqrt(rv(self.dof) * r_pi()), r_gamma(rv(self.dof) / 2real)); } }')
-m('t', 'T', 'mean', trait='Mean', ret='r', ensures=['C02.t.mean:: rv(self.dof) > 1real ==> rv(r) == 0real'])
+m('t', 'T', 'mean', trait='Mean', ret='r', ensures=['C02.t.mean:: rv(self.dof) > 1real ==> rv(r) == 0real', 'C02.t.mean.undefined:: rv(self.dof) <= 1real ==> r == f_nan()'])
 m('t', 'T', 'var', trait='Variance', ret='r', ensures=['C02.t.var:: rv(self.dof) > 2real ==> rv(r) == rv(self.dof) / (rv(self.dof) - 2real)',
-                                                         'C02.t.var.inf:: 1real < rv(self.dof) <= 2real ==> r == f_inf()'],
+                                                         'C02.t.var.inf:: 1real < rv(self.dof) <= 2real ==> r == f_inf()', 'C02.t.var.undefined:: rv(self.dof) <= 1real ==> r == f_nan()'],
   rewrites=[(r'(\([^()&|]*\)) & (\([^()&|]*\))', r'\1 && \2',
              'R23: non-short-circuit `&` on two pure bool comparisons equals `&&` (Verus rejects `&` on bool)', 're')])
 
